@@ -66,9 +66,15 @@ def build(desc):
                           radius=radius * 1.5, thickness=_num(s.get('thickness', 0)),
                           material=make_material(s.get('material', {'kind': 'air'})),
                           is_stop=s.get('is_stop', False), **kw2)
-            o.set_radius(radius, s['index'])
-            if conic is not None:
-                o.set_conic(conic, s['index'])
+            if desc.get('via_setters') == 'conic_first':
+                # the two setters commute: conic first, then the radius
+                if conic is not None:
+                    o.set_conic(conic, s['index'])
+                o.set_radius(radius, s['index'])
+            else:
+                o.set_radius(radius, s['index'])
+                if conic is not None:
+                    o.set_conic(conic, s['index'])
             continue
         o.add_surface(index=s['index'], surface_type=s.get('surface_type', 'standard'),
                       radius=radius, thickness=_num(s.get('thickness', 0)),
